@@ -207,6 +207,8 @@ func runCheck(id, repo, verif, tier string, seed int, freeze bool, keep string, 
 			fvcs = append(fvcs, d.DisciplineHeaderName())
 		case "guards":
 			fvcs = append(fvcs, d.DisciplineGuards(cfg.GuardStructs))
+		case "lockorder":
+			fvcs = append(fvcs, d.DisciplineLockOrder())
 		case "frames":
 			fvcs = append(fvcs, d.DisciplineFrames(id))
 		default:
